@@ -160,6 +160,42 @@ TEMPLATES = [
     ("method-frame", "def o = <* m = fn ( self , k ) k + UNDEF:P *> ; o:s0 ->:S0 m ( 1 )"),
     ("error-in-loop", "def r = 0 ; for i in [ 1 , 2 ] do if i == 2 then error:P i ; r = r + i end"),
     ("lambda-frame", "def h = fn ( q ) q:A *:P 'z' ; [ 1 ] !> h:s0 (:S0 )"),
+    # one template per kind of node that raises (positions are taken when the node is built: a position taken
+    # too late - after the operands were parsed - names a later line as soon as the construct spans lines)
+    ("slice-int", "def n = 5 ; n:A [:P 1 to 3 ]"),
+    ("slice-to-end", "def n = 5 ; n:A [:P 1 to * ]"),
+    ("and-non-bool", "def a = 1 ; TRUE:A and:P a"),
+    ("or-non-bool", "def a = 1 ; FALSE:A or:P a"),
+    ("compound-assign", "def a = 1 ; a += 'x':A -:P 1"),
+    ("compound-undefined", "qq:P += 1"),
+    ("compr-int", "def n = 5 ; [:P x for x in n ]"),
+    ("compr-cond", "[:P x for x in [ 1 ] if x ]"),
+    ("set-compr-int", "def n = 5 ; <<:P x for x in n >>"),
+    ("map-compr-int", "def n = 5 ; <<<:P x => 1 for x in n >>>"),
+    ("destr-assign-int", "def a = 1 ; def b = 2 ; [:P a , b ] = 5"),
+    ("destr-def-int", "def:P [ a , b ] = 5"),
+    ("destr-undefined", "def a = 1 ; [:P a , qq ] = [ 1 , 2 ]"),
+    ("unary-minus-str", "def s = 'x' ; -:P s"),
+    ("spread-int", "def f ( a ) a ; def n = 5 ; f:A (:P ... n )"),
+    ("require-missing", "def a = 1 ; require:P nosuchmodule"),
+    ("member-of-int", "def n = 5 ; n:A ->:P m"),
+    ("call-non-function", "def n = 5 ; n:A (:P 1 )"),
+    ("pipe-undefined", "def a = 1 ; a !> nosuch:P ( )"),
+    ("missing-arg", "def f ( a , b ) a ; f:A (:P 1 )"),
+    ("too-many-args", "def f ( a ) a ; f:A (:P 1 , 2 )"),
+    ("index-assign-range", "def l = [ 1 ] ; l:A [:P 5 ] = 2"),
+    ("member-assign-int", "def n = 5 ; n:A ->:P m = 2"),
+    ("elif-non-bool", "def t = 3 ; if:P FALSE then 1 elif t then 2 else 3"),
+    ("for-destr-int", "for:P [ a , b ] in [ 1 ] do a end"),
+    ("starts-with-int", "def d = 5 ; d:A starts:P with 3"),
+    ("not-str", "def s = 'x' ; not:P s"),
+    ("default-undefined", "def f ( a , b = UNDEF:P ) a ; f ( 1 )"),
+    ("list-literal-undef", "def l = [ 1 , UNDEF:P , 3 ]"),
+    ("map-literal-undef", "def m = <<< 1 => UNDEF:P >>>"),
+    ("obj-literal-undef", "def o = <* a = UNDEF:P *>"),
+    ("return-undef", "def f ( ) do return UNDEF:P ; end ; f ( )"),
+    ("catch-value-undef", "do error 1 catch UNDEF:P 2 end"),
+    ("finally-undef", "do 1 finally UNDEF:P end"),
 ]
 
 
@@ -271,8 +307,57 @@ def module_faults(run, rng, n):
                     run.violation(f"module-load-line:{ttext!r}",
                                   f"module-error-line: load-time fault reports {e.pos}, it is on line {want} of mod:{m2}",
                                   {"kind": "module-load", "module": ttext})
+            # a SYNTAX fault inside a module: reported in the module, at the line of the offending token
+            m3 = f"s{k}"
+            st, sroles = parse_template("def a = 1 ; def b = ( a + ;:P def c = 3")
+            stext, slines = layout(rng, st)
+            with open(os.path.join(d, m3 + ".ckl"), "w", newline="") as f:
+                f.write(stext)
+            rq, _ = layout(rng, ["def", "z", "=", "1", ";", "require", m3])
+            try:
+                it.interpret(rq, FNAME)
+                run.drift("module-syntax-template-no-error", stext)
+            except CklSyntaxError as e:
+                done += 1
+                want = slines[sroles["P"][0]]
+                if e.pos is None or getattr(e.pos, "filename", None) != "mod:" + m3 or e.pos.line != want:
+                    run.violation(f"module-syntax-line:{stext!r}",
+                                  f"module-error-line: syntax fault in a module reports {e.pos}, it is on line {want} of mod:{m3}",
+                                  {"kind": "module-syntax", "module": stext, "importer": rq})
+            except CklRuntimeError as e:
+                run.drift("module-syntax-fault-as-runtime-error", str(e.msg)[:60])
     finally:
         shutil.rmtree(d, ignore_errors=True)
+    return done
+
+
+# scanner errors: lexemes the scanner itself rejects, standing where a token is expected
+LEX_FAULTS = ["0x", "0b", "0x_", "0b_", "'\\xZZ'", '"\\x1"', "'\\x'", '"\\xg0"', "'ab\\x'", '"\\x"']
+
+
+def lexical_faults(run, rng, n):
+    """the scanner's own errors name the line on which the rejected lexeme begins, whatever follows it"""
+    frames = [["def", "a", "=", "@", ";", "def", "b", "=", "2"], ["@"], ["f", "(", "1", ",", "@", ")"],
+              ["[", "1", ",", "@", "]"], ["x", "=", "@"], ["do", "@", "end"]]
+    done = 0
+    for _ in range(n):
+        fr = rng.choice(frames)
+        lx = rng.choice(LEX_FAULTS)
+        texts = [lx if t == "@" else t for t in fr]
+        p = fr.index("@")
+        text, lines = layout(rng, texts)
+        fname = rng.choice([FNAME, "other.ckl", "dir/x.ckl", "{stdin}"])
+        try:
+            parse_script(text, fname)
+            run.drift("lexical-fault-accepted", text)
+        except CklSyntaxError as e:
+            done += 1
+            if e.pos is None or not hasattr(e.pos, "line") or e.pos.line != lines[p] or e.pos.filename != fname:
+                run.violation(f"lexical-line:{text!r}",
+                              f"scanner-error-line: {text!r} reports {e.pos} ({str(e.msg)[:40]}), the rejected lexeme {lx!r} "
+                              f"begins on line {lines[p]} of {fname}", {"kind": "lexical", "text": text, "line": lines[p], "fname": fname})
+        except Exception:  # noqa: BLE001  (C01's subject)
+            pass
     return done
 
 
@@ -286,8 +371,8 @@ def run(run):
     ml = [t for t in lrecs if "\n" in t and lrecs[t]["toks"]]
     run.sample({"text": ml[len(ml) // 2], "model_token_lines": [x["line"] for x in lrecs[ml[len(ml) // 2]]["toks"]]})
     # (ii) syntax faults at the token the automaton names
-    pcfgs = ["Parser_expr", "Parser_stmt", "Parser_lit"] if quick else \
-            ["Parser_expr_t", "Parser_stmt_t", "Parser_lit_t", "Parser_req_t"]
+    pcfgs = ["Parser_expr", "Parser_stmt", "Parser_lit", "Parser_req", "Parser_empty"] if quick else \
+            ["Parser_expr_t", "Parser_stmt_t", "Parser_lit_t", "Parser_req_t", "Parser_empty_t"]
     precs = c01.parser_phase(run, pcfgs)
     faults = []
     for key, alts in precs.items():
@@ -320,6 +405,10 @@ def run(run):
     text, lines = layout(rng, parse_template(TEMPLATES[2][1])[0])
     run.sample({"template": TEMPLATES[2][0], "text": text, "token_lines": lines})
     nmod = module_faults(run, rng, 25 if quick else 600)
+    nlex = lexical_faults(run, rng, 600 if quick else 20000)
+    run.cov["lexical_faults"] = nlex
+    if not nlex:
+        raise MachineryError("no lexical fault was rejected by the scanner")
     if not (ntok and nsyn and nrt and nmod):
         raise MachineryError(f"a phase produced no cases: {ntok} {nsyn} {nrt} {nmod}")
     run.cov["traces_validated_against_impl"] = ntok + nsyn + nrt + nmod
@@ -346,6 +435,12 @@ def replay(run, case):
             if t.pos.line != ln:
                 run.violation(f"token-line:{text!r}:{i}", f"token-line: token {i} reports line {t.pos.line}, begins on {ln}", case)
                 break
+    elif k == "lexical":
+        try:
+            parse_script(case["text"], case["fname"])
+        except CklSyntaxError as e:
+            if e.pos is None or e.pos.line != case["line"] or e.pos.filename != case["fname"]:
+                run.violation(f"lexical-line:{case['text']!r}", f"scanner-error-line: reports {e.pos}, lexeme begins on line {case['line']}", case)
     elif k == "syntax":
         check_syntax_fault(run, case["texts"], case["errAt"], case["text"], case["lines"])
     elif k == "runtime":
